@@ -3,7 +3,13 @@ package main
 // Strata added after round 10 of the seeded changes (first pass: two missed, fourteen reported only through a broken
 // obligation). Each is aimed at one class of change; all are heap-machine cases (the model is the specification).
 
-import "strconv"
+import (
+	"fmt"
+	"reflect"
+	"strconv"
+
+	at "github.com/DanielSvub/anytype"
+)
 
 // nestedClear (C06, C19): Clear on an object / list that is held by a parent. The identity of the cleared container
 // (what the parent holds, what Contains / KeyOf / IndexOf find, what a later Set on either handle shows) must survive —
@@ -279,5 +285,134 @@ func (c *Ctx) nonASCIIKeysDerived() {
 		m.SetTF(lraw, "#0.größe.w", gvInt(8))
 		m.GetTF(lraw, "#0.größe.w")
 		c.St.Eval("non-ascii-keys", true)
+	}
+}
+
+// nativeRowsGrow (C13, implementation-side): the nested slices of one export are independent of one another, not only of the
+// container — growing one row of a NativeSlice / NativeDict result (append) must not show in its neighbours (rows cut out of
+// one shared array without a capacity limit look right until one of them grows).
+func (c *Ctx) nativeRowsGrow() {
+	m := c.M
+	m.Case("native-rows-grow")
+	builds := map[string]func() at.List{
+		"2 rows":       func() at.List { return at.NewList(at.NewList(1, 2), at.NewList(3, "b")) },
+		"3 rows":       func() at.List { return at.NewList(at.NewList(1, 2), at.NewList(3, "b"), at.NewList(true)) },
+		"empty first":  func() at.List { return at.NewList(at.NewList(), at.NewList(1), at.NewList(2, 3)) },
+		"rows + scalar": func() at.List { return at.NewList(at.NewList(1.5), 7, at.NewList("x", nil)) },
+		"5 rows":       func() at.List { return at.NewListOf(nil, 0).Add(at.NewList(1), at.NewList(2), at.NewList(3), at.NewList(4), at.NewList(5)) },
+		"nested rows":  func() at.List { return at.NewList(at.NewList(at.NewList(1), at.NewList(2)), at.NewList(at.NewList(3))) },
+	}
+	for name, build := range builds {
+		l := build()
+		ref := l.NativeSlice()
+		exp := l.NativeSlice()
+		var grow func(rows []any, refRows []any, where string)
+		grow = func(rows []any, refRows []any, where string) {
+			for i := range rows {
+				row, ok := rows[i].([]any)
+				if !ok {
+					continue
+				}
+				rows[i] = append(row, "grown")
+				for j := range rows {
+					if j == i {
+						continue
+					}
+					want := refRows[j]
+					if rj, ok := rows[j].([]any); ok && j < i {
+						want = append(append([]any{}, refRows[j].([]any)...), "grown")
+						_ = rj
+					}
+					if !reflect.DeepEqual(rows[j], want) {
+						m.Alarm("C13", fmt.Sprintf("NativeSlice of %s (%s): after append to row %d%s, row %d reads %v, want %v", name, treeOf(l).Token(), i, where, j, rows[j], want))
+						return
+					}
+				}
+			}
+		}
+		grow(exp, ref, "")
+		// one level down, on a fresh export: the rows inside row 0
+		if exp2 := l.NativeSlice(); len(exp2) > 0 {
+			if in0, ok := exp2[0].([]any); ok {
+				if ref0, ok := ref[0].([]any); ok {
+					grow(in0, ref0, " (inside row 0)")
+				}
+			}
+		}
+		if !reflect.DeepEqual(l.NativeSlice(), ref) {
+			m.Alarm("C13", "growing the rows of an export changed what the list exports: "+name)
+		}
+		// the same rows as the values of an object
+		o := at.NewObject("a", build(), "b", build())
+		d1, d2 := o.NativeDict(), o.NativeDict()
+		a := d1["a"].([]any)
+		d1["a"] = append(a, "grown")
+		if !reflect.DeepEqual(d1["b"], d2["b"]) {
+			m.Alarm("C13", "NativeDict: growing the value of one key changed the value of another: "+name)
+		}
+		c.St.Eval("native-rows-grow:"+name, true)
+	}
+}
+
+// writeClearWrite (C11): a tree-form write, then the container (or the child the write went through) is emptied, replaced or
+// unset by another method, then a second write through the same first segment: it lands in the tree that is there now.
+func (c *Ctx) writeClearWrite() {
+	m := c.M
+	for _, between := range []string{"clear", "unset", "set-other", "set-scalar", "unsettf", "child-clear", "clear-twice"} {
+		m.Case("write-clear-write")
+		o := m.NewObject(gvStr("keep"), gvInt(1))
+		m.OSetTF(o, ".cfg.a", gvInt(1))
+		m.OSetTF(o, ".rows#0.x", gvInt(2))
+		child := m.OGet(o, "cfg")
+		switch between {
+		case "clear":
+			m.OClear(o)
+		case "clear-twice":
+			m.OClear(o)
+			m.OSetTF(o, ".cfg.z", gvInt(0))
+			m.OClear(o)
+		case "unset":
+			m.OUnset(o, "cfg", "rows")
+		case "set-other":
+			m.OSet(o, gvStr("cfg"), m.RefGV(m.NewObject(gvStr("fresh"), gvBool(true))), gvStr("rows"), m.RefGV(m.NewList()))
+		case "set-scalar":
+			m.OSet(o, gvStr("cfg"), gvInt(5), gvStr("rows"), gvStr("s"))
+		case "unsettf":
+			m.OUnsetTF(o, ".cfg")
+			m.OUnsetTF(o, ".rows")
+		case "child-clear":
+			if len(child) > 3 && child[3] == 'O' {
+				m.OClear(child[3:])
+			}
+		}
+		m.OSetTF(o, ".cfg.b", gvInt(3))
+		m.OSetTF(o, ".rows#0.y", gvInt(4))
+		m.OGetTF(o, ".cfg.b")
+		m.OTypeOfTF(o, ".cfg.a")
+		m.OGetTF(o, ".rows#0.y")
+		m.OTypeOfTF(o, ".rows#0.x")
+		m.OString(o)
+		// the same on a list root
+		l := m.NewList()
+		m.SetTF(l, "#0.a", gvInt(1))
+		m.SetTF(l, "#1#0", gvInt(2))
+		switch between {
+		case "clear", "clear-twice":
+			m.Clear(l)
+		case "unset", "unsettf":
+			m.UnsetTF(l, "#0")
+			m.UnsetTF(l, "#0")
+		case "set-other":
+			m.Replace(l, 0, m.RefGV(m.NewObject()))
+			m.Replace(l, 1, m.RefGV(m.NewList()))
+		case "set-scalar":
+			m.Replace(l, 0, gvInt(5))
+		}
+		m.SetTF(l, "#0.b", gvInt(3))
+		m.SetTF(l, "#1#1", gvInt(4))
+		m.GetTF(l, "#0.b")
+		m.TypeOfTF(l, "#0.a")
+		m.String(l)
+		c.St.Eval("write-clear-write:"+between, true)
 	}
 }
